@@ -67,6 +67,12 @@ def run(ctx):
     for d, n in ((6, 6 if q else 40), (7, 3 if q else 16)):
         for u in config_list(ctx, d, 2 if q else 5, 0, named=False):
             cases = [('inv', [numeric_operand(rng, d, 3, -2, 2, pad=0)], []) for _ in range(n)]
+            # homogeneous operands (one grade, two or three blades, disjoint or overlapping): blades and non-blades
+            for g in (1, 2, 2, 3, d - 1):
+                blades = [b for b in range(2 ** d) if bin(b).count('1') == g]
+                ks = rng.sample(blades, rng.choice([2, 2, 3]))
+                cases.append(('inv', [{'keys': ks, 'vals': [rng.choice([1, 2, -1, 3]) for _ in ks]}], []))
+                cases.append(('mulinv', [numeric_operand(rng, d, 2, -2, 2, pad=0), {'keys': ks, 'vals': [rng.choice([1, 2, -1]) for _ in ks]}], []))
             groups.append({'u': u, 'opts': {}, 'cases': cases, 'witness': True, 'revisit': 0})
     # (4) the same blades in several storage orders on ONE algebra with a wrapper set (functions are then called by name):
     #     x.inv(), y.inv(), x.inv() again, a/x, number/x
